@@ -1,13 +1,13 @@
-\* C19 thorough: statements/declarations/class files, pool of 4 expressions, one gap deviation
+\* C19 thorough: statements, statement pairs, declarations, declaration pairs, class files, samples; pool of 3 expressions; five base layouts
 SPECIFICATION LSpec
 CONSTANTS
   Foci = {"prec"}
   Sizes <- SmallSizes
   LFoci = {"stmt", "stmt2", "fstmt", "decl", "decl2", "class", "pairs", "samples"}
   Bases = {"canon", "tight", "wide", "nl", "one"}
-  MaxGap = 1
+  MaxGap = 0
   MaxCm = 0
   CmKinds = {}
   MutKinds = {}
-  PoolN = 4
+  PoolN = 3
 INVARIANTS RescanOK CommentsOK GapsLegal TreeKept LShapesOK LExport
